@@ -371,6 +371,68 @@ def run(tier, seed, replay):
                 viol("failure_exit_status", rp, "ambiguous module with a file at the fallback location (%s): exit status %d, expected 1" % (aname, pr.returncode))
             if not pr.stderr.strip():
                 viol("no_diagnostic", rp, "ambiguous module with a file at the fallback location (%s): nothing on stderr" % aname)
+    # ---- a fault BELOW a module that has two files (default file and a cfg_attr(path) alternative): the result of every branch counts
+    pd = os.path.join(base, "below_multi")
+    BELOW = {"missing": None, "ambiguous": "both", "unclosed": FAULT_TEXT["unclosed"], "lexer": FAULT_TEXT["lexer"], "recoverable": FAULT_TEXT["recoverable"]}
+    for where in ("alt", "default"):
+        for kname, ktext in BELOW.items():
+            for mode in MODES:
+                shutil.rmtree(pd, ignore_errors=True)
+                os.makedirs(pd)
+                files = {"lib.rs": "#[cfg_attr(unix, path = \"imp_unix.rs\")]\nmod imp;\n" + UNF % "root", "imp.rs": UNF % "generic", "imp_unix.rs": UNF % "unix"}
+                holder = "imp_unix.rs" if where == "alt" else "imp.rs"
+                files[holder] = "mod below;\n" + files[holder]
+                # a file declared by imp.rs lives in imp/, one declared by imp_unix.rs (reached through path =) next to it
+                bdir = "imp/" if where == "default" else ""
+                if kname == "ambiguous":
+                    files[bdir + "below.rs"] = UNF % "b1"
+                    files[bdir + "below/mod.rs"] = UNF % "b2"
+                elif ktext is not None:
+                    files[bdir + "below.rs"] = ktext
+                for rel, t in files.items():
+                    os.makedirs(os.path.dirname(os.path.join(pd, rel)) or pd, exist_ok=True)
+                    open(os.path.join(pd, rel), "w").write(t)
+                before = tree_files(pd)
+                pr = subprocess.run([exe] + MODES[mode] + ["lib.rs"], cwd=pd, env=env, stdout=subprocess.PIPE, stderr=subprocess.PIPE, timeout=60)
+                after = tree_files(pd)
+                rp = {"case": {"kind": "below_multi_file_module:%s:%s" % (where, kname), "mode": mode}, "files": files, "rc": pr.returncode, "stderr": pr.stderr.decode("utf-8", "replace")[-400:]}
+                nontrivial.add("below_multi_%s_%s_%s" % (where, kname, mode))
+                if after != before:
+                    viol("failing_root_modified", dict(rp, changed=sorted(k for k in after if after[k] != before.get(k))), "a module below the %s file of `#[cfg_attr(unix, path = ..)] mod imp;` is %s but files of the crate were rewritten" % (where, kname))
+                if pr.returncode != 1:
+                    viol("failure_exit_status", rp, "fault %s below the %s file of a two-file module: exit status %d, expected 1" % (kname, where, pr.returncode))
+                if not pr.stderr.strip():
+                    viol("no_diagnostic", rp, "fault %s below the %s file of a two-file module: nothing on stderr" % (kname, where))
+    # ---- the same failures with an explicit --config-path (main.rs takes another branch: no per-file configuration lookup)
+    pd = os.path.join(base, "config_path")
+    CP = {"missing_module": ({"lib.rs": "mod a;\nmod gone;\n" + UNF % "root", "a.rs": UNF % "a"}, ""),
+          "unclosed_in_grandchild": ({"lib.rs": "mod a;\n" + UNF % "root", "a.rs": "mod a1;\n" + UNF % "a", "a/a1.rs": FAULT_TEXT["unclosed"]}, ""),
+          "lexer_in_child": ({"lib.rs": "mod a;\n" + UNF % "root", "a.rs": FAULT_TEXT["lexer"]}, ""),
+          "required_version": ({"lib.rs": "mod a;\n" + UNF % "root", "a.rs": UNF % "a"}, "required_version = \"0.0.1\"\n"),
+          "root_syntax": ({"lib.rs": FAULT_TEXT["unclosed"]}, "")}
+    for cname, (files, toml) in CP.items():
+        for mode in MODES:
+            for with_ok in (False, True):
+                shutil.rmtree(pd, ignore_errors=True)
+                os.makedirs(os.path.join(pd, "k"))
+                os.makedirs(os.path.join(pd, "cfg"))
+                open(os.path.join(pd, "cfg", "rustfmt.toml"), "w").write(toml)
+                for rel, t in files.items():
+                    os.makedirs(os.path.dirname(os.path.join(pd, "k", rel)), exist_ok=True)
+                    open(os.path.join(pd, "k", rel), "w").write(t)
+                okf = build_ok(os.path.join(pd, "ok")) if with_ok else {}
+                before = tree_files(os.path.join(pd, "k"))
+                args = [exe, "--config-path", os.path.join(pd, "cfg", "rustfmt.toml")] + MODES[mode] + [os.path.join(pd, "k", "lib.rs")] + ([os.path.join(pd, "ok", "main.rs")] if with_ok else [])
+                pr = subprocess.run(args, cwd=pd, env=env, stdout=subprocess.PIPE, stderr=subprocess.PIPE, timeout=60)
+                after = tree_files(os.path.join(pd, "k"))
+                rp = {"case": {"kind": "with_config_path:" + cname, "mode": mode, "healthy_second_root": with_ok}, "files": files, "rc": pr.returncode, "stderr": pr.stderr.decode("utf-8", "replace")[-400:]}
+                nontrivial.add("config_path_%s_%s_%s" % (cname, mode, with_ok))
+                if after != before:
+                    viol("failing_root_modified", rp, "--config-path run, fault %s: files of the failing root were rewritten" % cname)
+                if pr.returncode != 1:
+                    viol("failure_exit_status", rp, "--config-path run, fault %s: exit status %d, expected 1" % (cname, pr.returncode))
+                if not pr.stderr.strip():
+                    viol("no_diagnostic", rp, "--config-path run, fault %s: nothing on stderr" % cname)
     # ---- required_version in every spelling: a requirement the running version does not meet aborts the run before anything
     # is parsed or written; one it meets changes nothing
     vout = subprocess.run([exe, "--version"], env=env, stdout=subprocess.PIPE, stderr=subprocess.PIPE, timeout=60).stdout.decode()
